@@ -208,7 +208,7 @@ func (x Str) String() string {
 	}
 	var sb strings.Builder
 	sb.WriteString("sym\"")
-	for i := range x.s {
+	for i := 0; i < len(x.s); i++ {
 		if x.sym[i] != nil {
 			sb.WriteString("<" + x.sym[i].String() + ">")
 		} else {
